@@ -14,10 +14,12 @@
      - the potential argument (Potential.v): processing any message never lowers a node's
        potential, a productive exchange raises it by at least one, and along any history of a node
        the number of rises is at most (members known) * (V+1)^2.
-   Not mechanised: the last, purely combinatorial step — "every fair round of a non-converged
-   quiet world contains a productive exchange (deliverable_iff_ahead + quiet_exchange_progress),
-   so there are at most sum-of-bounds non-converged rounds" — as a statement over schedules of
-   the global step relation; it is exercised by
+       C01_behind_implies_deliverable closes the per-pair loop: a quiet node that is behind a
+       peer on some unquarantined member gets a non-empty offer from it.
+   Not mechanised: the last, purely combinatorial step — "hence every fair round of a
+   non-converged quiet world contains a productive exchange, and there are at most
+   sum-of-bounds of them" — as a statement over schedules of the global step relation (a
+   pigeonhole over (i)-(iv)); it is exercised by
    the correspondence suite `conv` (fair rounds after arbitrary histories, on the implementation
    and the model) whose monitor checks exactly the two consequences: every fair round of a
    non-converged world strictly increases the measure, and the world converges.
@@ -200,6 +202,19 @@ Section C01.
     rises (map (potential V) l) <= N.of_nat (length (cs_nodes (nd_cs nlast))) * (V + 1) * (V + 1).
   Proof. exact (productive_steps_bounded zc). Qed.
 
+  (* (iv) not converged => deliverable: if b holds, for a member it does not quarantine, a copy whose
+          max version is beyond the quiet node a's (or a does not know the member), b's answer to
+          a's SYN has a non-empty list of stale members — so, with (ii), the exchange is productive *)
+  Theorem C01_behind_implies_deliverable : forall now a b X cb,
+    node_inv b ->
+    nm_get X (cs_nodes (nd_cs b)) = Some cb ->
+    let dg := compute_digest (nd_cs a) [] in
+    let b1 := report_heartbeats_in_digest now (update_self_heartbeat b) dg in
+    in_ids X (scheduled now b1) = false ->
+    (match nm_get X (cs_nodes (nd_cs a)) with Some ca => c_max ca | None => 0 end) < c_max cb ->
+    exists n, In n (stale_nodes (nd_cs b1) dg (scheduled now b1)).
+  Proof. exact behind_implies_deliverable. Qed.
+
   Theorem C01_strict_advance_raises_measure : forall V c c',
     frontier_lt c c' -> c_max c <= V -> c_max c' <= V -> frontier_measure V c < frontier_measure V c'.
   Proof. exact frontier_measure_lt. Qed.
@@ -243,3 +258,4 @@ Print Assumptions C01_strict_advance_raises_measure.
 Print Assumptions C01_potential_never_decreases.
 Print Assumptions C01_potential_rises_on_exchange.
 Print Assumptions C01_productive_steps_bounded.
+Print Assumptions C01_behind_implies_deliverable.
